@@ -162,6 +162,59 @@ def run(ck):
         ck.note_distinct(r["kind"] + "/" + str(d) + "/" + p["src"])
         if len(ck.samples) < 3 and d >= 2:
             ck.add_sample({"src": p["src"], "error": r["msg"]})
+    # ---- the same failing programs with multi-line block comments and line comments in front of the code (main file and every
+    # module): every extent moves by the length of the inserted text, the reported lines and columns must follow
+    CM = "/* one\n   two\n   three */\n// a line comment\n/* x */ /* y\n */\n"
+    shifted = []
+    for p in progs:
+        if real[p["id"]]["k"] != "runtime_error" or len(shifted) >= (150 if quick else 3000):
+            continue
+        q = dict(p)
+        q["id"] = len(shifted) + 1
+        q["orig"] = p["id"]
+        q["src"] = CM + p["src"]
+        q["mods"] = [{"name": m["name"], "src": CM + m["src"]} for m in p.get("mods", [])]
+        q["ext"] = [[a + len(CM), b + len(CM)] for (a, b) in p["ext"]]
+        shifted.append(q)
+    sreal = semlib.real_outcomes(ck, shifted, nproc=8)
+    for q in shifted:
+        r = sreal[q["id"]]
+        ms = outs[q["orig"]]
+        ck.evaluations += 1
+        if r.get("k") != "runtime_error":
+            ck.violation("comments-change-outcome", "comments in front of the code change the outcome: %s\n%s" % (str(r)[:200], q["src"][:600]), {"program": q, "real": r})
+            continue
+        cands = [m for m in ms if m["k"] == "runtime_error" and m["kind"] == r["kind"]]
+        problems = [check_positions(q, m, r) for m in cands]
+        if cands and all(problems):
+            ck.violation("pos-after-comments:" + r["kind"], "with block comments in front of the code: %s\n%s\n%s" % (problems[0], r["msg"], q["src"][:1500]), {"program": q, "model": cands, "real": r})
+        else:
+            ck.traces += 1
+    # ---- instruction level: the reported location is the source position of the instruction that was dispatched last - for every
+    # failing program, and for programs stopped by the allocation limit at every budget below what they need
+    ep = [{"id": i + 1, "src": p["src"], "inputs": p.get("inputs", []), "mods": p.get("mods", []), "pid": p["id"]} for i, p in enumerate(progs)
+          if real[p["id"]]["k"] == "runtime_error"]
+    okp = [p for p in progs if real[p["id"]]["k"] == "ok"][: (60 if quick else 1500)]
+    for p in okp:
+        for b in (0, 1, 2, 3, 5, 8, 13):
+            ep.append({"id": len(ep) + 1, "src": p["src"], "inputs": p.get("inputs", []), "mods": p.get("mods", []), "pid": p["id"], "budget": b})
+    er = vlib.run_cases(ck, "errpos", ep, nproc=8)
+    nlim = 0
+    for c in ep:
+        o = er[c["id"]]
+        ck.evaluations += 1
+        if o.get("hang") or o.get("died") or o.get("panic") or "match" not in o:
+            continue
+        if (o.get("outcome") or {}).get("kind") == "alloc_limit":
+            nlim += 1
+        if not o["match"]:
+            ck.violation("pos-of-instruction:" + o["outcome"]["kind"], "the error (%s%s) reports %s, the instruction dispatched last (offset %s) stands at %s\n%s" % (
+                o["outcome"]["kind"], "" if "budget" not in c else ", budget %d" % c["budget"], o["reported"], o["expected"].get("ip"), o["expected"], c["src"][:1200]),
+                {"case": c, "real": o})
+        else:
+            ck.traces += 1
+    ck.extra["errpos_cases"] = len(ep)
+    ck.extra["errpos_alloc_limit_errors"] = nlim
     # sentinel errors stay recognisable: the harness classifies them with errors.Is first
     ck.extra.update({"failing_programs_validated": nerr, "error_kinds": kinds, "call_depth_histogram": depth})
     ck.rule = ("failing programs of families errs/dce/random; non-trivial = distinct (error kind, call depth, source); each validated "
